@@ -1,7 +1,8 @@
 import ScVerif.C04.Lemmas
+import ScVerif.C01.IdLemmas
 import ScVerif.C01.Flat
 /-!
-# C04 — the REMOVE event of a `Delete` whose first read is stale
+# C04 — more event fields: the REMOVE of a `Delete` whose first read is stale; intercepted ids
 
 `Collection.Delete` reads the item under the read lock, runs the caller's checks without any lock, then
 takes the write lock and re-reads: if the entry is no longer the one it read it retries with the fresh
@@ -134,6 +135,30 @@ theorem C04_delete_removes_current (cfg : Cfg M K R) (h : EqRefl cfg.ops) (hs : 
           · exact nothing _ _
           · exact tail
 
+/-- **Events carry intercepted ids.**  With an id interceptor configured (`WithIDInterceptor`), every
+event of every call sequence — hence every non-seed event of every `Pull` stream, and every change a
+`PullID(id)` compares with its own intercepted id — names the interceptor's image of some id (the id
+given to the call, or a generated candidate): never a raw id. -/
+theorem C04_event_ids_intercepted (cfg : Cfg M K R) (h : EqRefl cfg.ops) (ops : List (COp M K)) :
+    ∀ s : CState M R, ∀ e ∈ busEvents cfg s ops, ∃ x, e.id = icptId cfg x := by
+  induction ops with
+  | nil => intro s e he; simp [busEvents, Coll.run] at he
+  | cons op ops ih =>
+    intro s e he
+    simp only [busEvents, Coll.run, List.flatMap_cons, List.mem_append] at he
+    rcases he with he | he
+    · have := (step_ids cfg h s op).1 e.id
+      apply this
+      cases hr : (Coll.step cfg s op).1 with
+      | got v => rw [hr] at he; simp [eventsOf] at he
+      | listed vs => rw [hr] at he; simp [eventsOf] at he
+      | wrote o =>
+        rw [hr] at he
+        simp only [eventsOf] at he
+        simp only [resIds, List.mem_append, List.mem_map]
+        exact Or.inl ⟨e, he, rfl⟩
+    · exact ih _ e he
+
 /-! ## Non-vacuity -/
 
 /-- the flat message model's `proto.Equal` is sound and reflexive -/
@@ -154,5 +179,10 @@ example : ((deleteLoop dlCfg {} "a" 5 (some { body := { a := 1, s := "", c := no
 example : ((deleteLoop dlCfg {} "a" 5 (some { body := { a := 1, s := "", c := none }, time := 0 })
       (Coll.init dlCfg [] [])).1.events.length, (deleteLoop dlCfg {} "a" 5 (some { body := { a := 1, s := "", c := none }, time := 0 })
       (Coll.init dlCfg [] [])).1.err) = (0, some .notFound) := by rfl
+
+/-- with an interceptor the event carries the intercepted id, also for the REMOVE -/
+example : (busEvents { dlCfg with icpt := some (fun s => s ++ "!") } (Coll.init dlCfg [] [])
+      [.add "ab" { a := 1, s := "", c := none } {}, .delete "ab" {}]).map (fun e => (e.id, e.kind)) =
+    [("ab!", .add), ("ab!", .remove)] := by rfl
 
 end ScVerif.C04
